@@ -100,6 +100,9 @@ def mixSampleLoop (ws : List String) : Nat → Rng → List String → Option (L
         | none => none
       | _, _ => none
 
+/-- the generic-API wrappers `esl_<d>_generic_<f>(x, params)` forward to `esl_<d>_<f>(x, params[0], …)`: that is their spec -/
+def ungeneric (fn : String) : String := fn.replace "_generic_" "_"
+
 def step (s : Unit) (line : String) : Unit × String :=
   let ws := words line
   match ws with
@@ -112,7 +115,7 @@ def step (s : Unit) (line : String) : Unit × String :=
       | "esl_stats_IncGammaP", [a, x] => (s, s!"ok {hex64 (Num.incGammaP a x).toBits}")
       | "esl_stats_IncGammaQ", [a, x] => (s, s!"ok {hex64 (Num.incGammaQ a x).toBits}")
       | _, _ =>
-      match Gen.dispatch fn a with
+      match Gen.dispatch (ungeneric fn) a with
       | some v => (s, s!"ok {hex64 v.toBits}")
       | none => (s, "unmodelled")
     | _, _ => (s, "bad-op")
@@ -142,8 +145,9 @@ def step (s : Unit) (line : String) : Unit × String :=
   | "mix" :: _ =>
     match arg? ws "fn", argBits? ws "x" with
     | some "invcdf", _ => (s, "unmodelled")           -- bracketing/bisection loops: monitor-only
+    | some "generic_invcdf", _ => (s, "unmodelled")
     | some fn, some x =>
-      match mixEval ws fn x with
+      match mixEval ws (fn.replace "generic_" "") x with
       | some v => (s, s!"ok {hex64 v.toBits}")
       | none => (s, "bad-op")
     | _, _ => (s, "bad-op")
